@@ -62,7 +62,7 @@ def family(kname):
 # ---------------------------------------------------------------------------
 # generation
 
-SYMS = 'abcdefgh'
+SYMS = ['a', 'b', 'th', 'c', 'd', 'e', 'f', 'gʷ']     # segments are strings of any length
 PRO_POOLS = ['AX', 'ABCXYZ', 'AXT_', 'ABCLMNXYZT_', '#+AX', 'CVT_c']
 VAL_POOLS = [[-1.0, 0.0, 2.0], [-1.0, 1.0], [-2.0, -1.0, 0.0, 1.0, 2.0, 3.0],
              [-1.5, -0.5, 0.0, 0.25, 1.0, 2.5], [0.0, 1.0], [-10.0, -1.0, 5.0, 10.0]]
